@@ -43,6 +43,9 @@ Proof. destruct p as [[x y] z], k; unfold vset, v3add, v3scale, vget, ek; cbn; f
 Lemma vget_vset k j (p : V3) t : vget j (vset k p t) = if match k, j with AX, AX | AY, AY | AZ, AZ => true | _, _ => false end then t else vget j p.
 Proof. destruct p as [[x y] z], k, j; reflexivity. Qed.
 
+Lemma Reqb_false a b : a <> b -> Reqb' a b = false.
+Proof. intros H. unfold Reqb'. destruct (Req_EM_T a b); [contradiction|reflexivity]. Qed.
+
 (* ------------------------------------------------------------------ sums *)
 Lemma tsum_cons a (l : list R) : tsum Rops (a :: l) = a + tsum Rops l.
 Proof. reflexivity. Qed.
@@ -339,6 +342,173 @@ Proof.
   - intros a Ha. apply (Hok a Ha).
   - intros a Ha. destruct (Hok a Ha) as (_ & Hw & Hper). destruct (Hg a Ha) as (G1 & G2 & G3).
     apply walls_derive; assumption.
+Qed.
+
+(* ------------------------------------------------------------------ history-dependent biases at a frozen state *)
+Lemma dist2_nonper_derive (v : var) x0 c : v_periodic v = false ->
+  is_derive (fun x => dist2 Rops v x c) x0 (dist2_lgrad Rops v x0 c).
+Proof.
+  intros Hp. unfold dist2, dist2_lgrad, pdiff. rewrite Hp. unfold RestraintModel.two. cbn [nsub nmul nofZ Rops].
+  auto_derive; [exact I|ring].
+Qed.
+
+(* exp(-s/2) truncated beyond s = 23 *)
+Definition gtrunc (s : R) : R := if Rltb 23 s then 0 else exp (- (1 / 2) * s).
+Lemma gtrunc_derive s0 : s0 <> 23 -> is_derive gtrunc s0 (if Rltb 23 s0 then 0 else - (1 / 2) * gtrunc s0).
+Proof.
+  intros Hne. unfold gtrunc. destruct (Rltb 23 s0) eqn:E.
+  - apply Rltb_true in E. apply (is_derive_ext_loc (fun _ => 0)); [|apply @is_derive_const].
+    assert (Hd : 0 < s0 - 23) by lra. exists (mkposreal _ Hd). intros y Hy.
+    unfold ball in Hy; simpl in Hy; unfold AbsRing_ball, abs, minus, plus, opp in Hy; simpl in Hy. apply Rabs_def2 in Hy.
+    replace (Rltb 23 y) with true by (symmetry; apply Rltb_true; lra). reflexivity.
+  - apply Rltb_false in E. assert (Hlt : s0 < 23) by lra.
+    apply (is_derive_ext_loc (fun s => exp (- (1 / 2) * s))).
+    + assert (Hd : 0 < 23 - s0) by lra. exists (mkposreal _ Hd). intros y Hy.
+      unfold ball in Hy; simpl in Hy; unfold AbsRing_ball, abs, minus, plus, opp in Hy; simpl in Hy. apply Rabs_def2 in Hy.
+      replace (Rltb 23 y) with false by (symmetry; apply Rltb_false; lra). reflexivity.
+    + auto_derive; [exact I|ring].
+Qed.
+
+Definition hill_ok (ws : list cvar) (x0 : list R) (h : R * list (nat * (R * R))) : Prop :=
+  terms_ok fst (snd h) ws /\ (forall t, In t (snd h) -> snd (snd t) <> 0) /\ hill_sqdev Rops ws x0 (snd h) <> 23.
+
+Lemma hill_sqdev_path (ws : list cvar) terms xs dxs t0 x0 :
+  terms_ok fst terms ws -> (forall t, In t terms -> snd (snd t) <> 0) -> xs t0 = x0 -> path_ok xs dxs t0 ->
+  is_derive (fun t => hill_sqdev Rops ws (xs t) terms) t0
+    (- tsum Rops (map (fun v => tsum Rops (map (fun a => if Nat.eqb (fst a) v
+            then - (dist2_lgrad Rops (rvar Rops (vat Rops ws v)) (xat Rops x0 v) (fst (snd a)) / (snd (snd a) * snd (snd a))) else 0) terms)
+          * xat Rops dxs v) (seq 0 (length ws)))).
+Proof.
+  intros Hok Hsig Hx0 Hp. unfold hill_sqdev. cbn [ndiv nmul Rops].
+  apply (separable_correct terms fst
+           (fun a x => dist2 Rops (rvar Rops (vat Rops ws (fst a))) x (fst (snd a)) / (snd (snd a) * snd (snd a)))
+           (fun a v x => - (dist2_lgrad Rops (rvar Rops (vat Rops ws v)) x (fst (snd a)) / (snd (snd a) * snd (snd a))))
+           (length ws) x0); auto.
+  - intros a Ha. apply (Hok a Ha).
+  - intros a Ha. destruct (Hok a Ha) as (_ & Hw & Hper). specialize (Hsig a Ha).
+    apply (is_derive_ext (fun x => / (snd (snd a) * snd (snd a)) * dist2 Rops (rvar Rops (vat Rops ws (fst a))) x (fst (snd a))));
+      [intros x; unfold Rdiv; apply Rmult_comm|].
+    evar_last.
+    + apply is_derive_scal. apply dist2_nonper_derive. exact Hper.
+    + field. exact Hsig.
+Qed.
+
+Lemma hill_value_gtrunc ws xs terms : hill_value Rops ws xs terms = gtrunc (hill_sqdev Rops ws xs terms).
+Proof.
+  unfold hill_value, gtrunc, hf, nhalf, zero, ofnat. cbn [nltb nexp nneg nmul ndiv n0 n1 nofZ Rops].
+  change (IZR (Z.of_nat 23)) with 23. change (IZR 2) with 2.
+  destruct (Rltb 23 (hill_sqdev Rops ws xs terms)); reflexivity.
+Qed.
+
+Lemma sel_scale {A} (terms : list A) (idx : A -> nat) (c : R) (P Q : A -> nat -> R) (vs : list nat) (d : nat -> R) :
+  (forall a v, In a terms -> Q a v = c * P a v) ->
+  tsum Rops (map (fun v => tsum Rops (map (fun a => if Nat.eqb (idx a) v then Q a v else 0) terms) * d v) vs)
+  = c * tsum Rops (map (fun v => tsum Rops (map (fun a => if Nat.eqb (idx a) v then P a v else 0) terms) * d v) vs).
+Proof.
+  intros H. rewrite <- tsum_scale'. apply tsum_ext. intros v _.
+  replace (c * (tsum Rops (map (fun a => if Nat.eqb (idx a) v then P a v else 0) terms) * d v))
+    with (d v * (c * tsum Rops (map (fun a => if Nat.eqb (idx a) v then P a v else 0) terms))) by ring.
+  rewrite <- tsum_scale'. rewrite Rmult_comm. f_equal. apply tsum_ext. intros a Ha.
+  destruct (Nat.eqb (idx a) v); [apply H; exact Ha|ring].
+Qed.
+
+Lemma bias_force_correct_meta hs ws x0 : (forall h, In h hs -> hill_ok ws x0 h) -> bias_force_correct (BMeta hs) ws x0.
+Proof.
+  intros Hok xs dxs t0 Hx0 Hp. cbn [bias_energy bias_force].
+  (* per hill *)
+  set (Fh := fun (h : R * list (nat * (R * R))) (v : nat) =>
+     let val := hill_value Rops ws x0 (snd h) in
+     if neqb Rops val (zero Rops) then zero Rops
+     else tsum Rops (map (fun t => if Nat.eqb (fst t) v
+                                   then fst h * val * (hf Rops / (snd (snd t) * snd (snd t))) * dist2_lgrad Rops (rvar Rops (vat Rops ws v)) (xat Rops x0 v) (fst (snd t))
+                                   else zero Rops) (snd h))).
+  assert (HH : forall h, In h hs ->
+     is_derive (fun t => fst h * hill_value Rops ws (xs t) (snd h)) t0
+               (- tsum Rops (map (fun v => Fh h v * xat Rops dxs v) (seq 0 (length ws))))).
+  { intros h Hin. destruct (Hok h Hin) as (Ht & Hs & Hc).
+    pose proof (hill_sqdev_path ws (snd h) xs dxs t0 x0 Ht Hs Hx0 Hp) as HS.
+    apply (is_derive_ext (fun t => fst h * gtrunc (hill_sqdev Rops ws (xs t) (snd h)))); [intros t; rewrite hill_value_gtrunc; reflexivity|].
+    evar_last.
+    - apply is_derive_scal. apply (is_derive_comp gtrunc (fun t => hill_sqdev Rops ws (xs t) (snd h))); [|exact HS].
+      rewrite Hx0. apply gtrunc_derive. exact Hc.
+    - lazymatch goal with |- context [scal ?a ?b] => change (scal a b) with (Rmult a b) end.
+      unfold Fh. cbv zeta. rewrite hill_value_gtrunc. unfold zero, hf, nhalf. cbn [neqb n0 n1 ndiv nofZ Rops]. change (IZR 2) with 2.
+      unfold gtrunc. destruct (Rltb 23 (hill_sqdev Rops ws x0 (snd h))) eqn:E.
+      + (* beyond the cut-off: value 0, force 0 *)
+        rewrite (proj2 (Reqb_true 0 0) eq_refl).
+        rewrite (tsum_ext (fun v : nat => 0 * xat Rops dxs v) (fun _ => 0)) by (intros; ring). rewrite tsum_zero. ring.
+      + assert (Hex : exp (- (1 / 2) * hill_sqdev Rops ws x0 (snd h)) <> 0) by (apply Rgt_not_eq, exp_pos).
+        rewrite (Reqb_false _ _ Hex).
+        set (val := exp (- (1 / 2) * hill_sqdev Rops ws x0 (snd h))) in *.
+        rewrite (sel_scale (snd h) fst (-1)
+                   (fun (a : nat * (R * R)) (v : nat) => dist2_lgrad Rops (rvar Rops (vat Rops ws v)) (xat Rops x0 v) (fst (snd a)) / (snd (snd a) * snd (snd a)))
+                   (fun (a : nat * (R * R)) (v : nat) => - (dist2_lgrad Rops (rvar Rops (vat Rops ws v)) (xat Rops x0 v) (fst (snd a)) / (snd (snd a) * snd (snd a))))
+                   (seq 0 (length ws)) (xat Rops dxs)) by (intros; ring).
+        rewrite (sel_scale (snd h) fst (fst h * val * (1 / 2))
+                   (fun (a : nat * (R * R)) (v : nat) => dist2_lgrad Rops (rvar Rops (vat Rops ws v)) (xat Rops x0 v) (fst (snd a)) / (snd (snd a) * snd (snd a)))
+                   (fun a v => fst h * val * (1 / 2 / (snd (snd a) * snd (snd a))) * dist2_lgrad Rops (rvar Rops (vat Rops ws v)) (xat Rops x0 v) (fst (snd a)))
+                   (seq 0 (length ws)) (xat Rops dxs)).
+        * ring.
+        * intros a v Ha. field. apply (Hs a Ha). }
+  (* sum over the hills, exchange with the sum over the variables *)
+  evar_last.
+  - apply (is_derive_tsum (fun h t => fst h * hill_value Rops ws (xs t) (snd h))
+                          (fun h => - tsum Rops (map (fun v => Fh h v * xat Rops dxs v) (seq 0 (length ws))))). exact HH.
+  - transitivity (- tsum Rops (map (fun h => tsum Rops (map (fun v => Fh h v * xat Rops dxs v) (seq 0 (length ws)))) hs)).
+    { replace (- tsum Rops (map (fun h => tsum Rops (map (fun v => Fh h v * xat Rops dxs v) (seq 0 (length ws)))) hs))
+        with (-1 * tsum Rops (map (fun h => tsum Rops (map (fun v => Fh h v * xat Rops dxs v) (seq 0 (length ws)))) hs)) by ring.
+      rewrite <- tsum_scale'. apply tsum_ext. intros h _. ring. }
+    f_equal. rewrite tsum_swap. apply tsum_ext. intros v _.
+    rewrite Rmult_comm, <- tsum_scale'. apply tsum_ext. intros h _. unfold Fh. cbv zeta. apply Rmult_comm.
+Qed.
+
+(* ABMD at a fixed reference: E = k/2 min(0, s (x - ref))^2 *)
+Lemma abmd_derive k dec ref x0 : abmd_diff Rops dec x0 ref <> 0 ->
+  is_derive (fun x => if Rltb 0 (abmd_diff Rops dec x ref) then 0 else 1 / 2 * k * abmd_diff Rops dec x ref * abmd_diff Rops dec x ref) x0
+            (- (if Rltb 0 (abmd_diff Rops dec x0 ref) then 0 else - (if dec then -1 else 1) * k * abmd_diff Rops dec x0 ref)).
+Proof.
+  intros Hne. unfold abmd_diff in *. unfold mone, one in *. cbn [nsub nmul nneg n1 Rops] in *.
+  destruct dec.
+  - destruct (Rltb 0 ((x0 - ref) * - (1))) eqn:E.
+    + apply Rltb_true in E.
+      apply (is_derive_ext_loc (fun _ => 0)); [|replace (- 0) with 0 by ring; apply @is_derive_const].
+      exists (mkposreal _ E). intros y Hy.
+      unfold ball in Hy; simpl in Hy; unfold AbsRing_ball, abs, minus, plus, opp in Hy; simpl in Hy. apply Rabs_def2 in Hy.
+      replace (Rltb 0 ((y - ref) * - (1))) with true; [reflexivity|]. symmetry. apply Rltb_true. lra.
+    + apply Rltb_false in E. assert (Hlt : (x0 - ref) * - (1) < 0) by lra.
+      apply (is_derive_ext_loc (fun x => 1 / 2 * k * ((x - ref) * - (1)) * ((x - ref) * - (1)))).
+      * assert (Hd : 0 < - ((x0 - ref) * - (1))) by lra. exists (mkposreal _ Hd). intros y Hy.
+        unfold ball in Hy; simpl in Hy; unfold AbsRing_ball, abs, minus, plus, opp in Hy; simpl in Hy. apply Rabs_def2 in Hy.
+        replace (Rltb 0 ((y - ref) * - (1))) with false; [reflexivity|]. symmetry. apply Rltb_false. lra.
+      * auto_derive; [exact I|field].
+  - destruct (Rltb 0 ((x0 - ref) * 1)) eqn:E.
+    + apply Rltb_true in E.
+      apply (is_derive_ext_loc (fun _ => 0)); [|replace (- 0) with 0 by ring; apply @is_derive_const].
+      exists (mkposreal _ E). intros y Hy.
+      unfold ball in Hy; simpl in Hy; unfold AbsRing_ball, abs, minus, plus, opp in Hy; simpl in Hy. apply Rabs_def2 in Hy.
+      replace (Rltb 0 ((y - ref) * 1)) with true; [reflexivity|]. symmetry. apply Rltb_true. lra.
+    + apply Rltb_false in E. assert (Hlt : (x0 - ref) * 1 < 0) by lra.
+      apply (is_derive_ext_loc (fun x => 1 / 2 * k * ((x - ref) * 1) * ((x - ref) * 1))).
+      * assert (Hd : 0 < - ((x0 - ref) * 1)) by lra. exists (mkposreal _ Hd). intros y Hy.
+        unfold ball in Hy; simpl in Hy; unfold AbsRing_ball, abs, minus, plus, opp in Hy; simpl in Hy. apply Rabs_def2 in Hy.
+        replace (Rltb 0 ((y - ref) * 1)) with false; [reflexivity|]. symmetry. apply Rltb_false. lra.
+      * auto_derive; [exact I|field].
+Qed.
+
+Lemma bias_force_correct_abmd k dec v ref ws x0 : (v < length ws)%nat -> abmd_diff Rops dec (xat Rops x0 v) ref <> 0 ->
+  bias_force_correct (BAbmd k dec v ref) ws x0.
+Proof.
+  intros Hv Hne xs dxs t0 Hx0 Hp. cbn [bias_energy bias_force].
+  unfold hf, nhalf, zero, mone, one. cbn [nltb nmul nneg ndiv n0 n1 nofZ Rops]. change (IZR 2) with 2.
+  rewrite (tsum_ext _ (fun v' => if Nat.eqb v v' then
+      (if Rltb 0 (abmd_diff Rops dec (xat Rops x0 v') ref) then 0 else - (if dec then - (1) else 1) * k * abmd_diff Rops dec (xat Rops x0 v') ref) * xat Rops dxs v' else 0)).
+  2:{ intros v' _. destruct (Nat.eqb v v'); ring. }
+  rewrite (tsum_select (length ws) (fun v' => (if Rltb 0 (abmd_diff Rops dec (xat Rops x0 v') ref) then 0 else - (if dec then - (1) else 1) * k * abmd_diff Rops dec (xat Rops x0 v') ref) * xat Rops dxs v') v 0) by lia.
+  evar_last.
+  - apply (is_derive_comp (fun x => if Rltb 0 (abmd_diff Rops dec x ref) then 0 else 1 / 2 * k * abmd_diff Rops dec x ref * abmd_diff Rops dec x ref)
+                          (fun t => xat Rops (xs t) v)); [rewrite Hx0; apply abmd_derive; exact Hne|apply Hp].
+  - lazymatch goal with |- context [scal ?a ?b] => change (scal a b) with (Rmult a b) end.
+    replace (- (1)) with (-1) by ring. ring.
 Qed.
 
 (* ------------------------------------------------------------------ atom groups *)
@@ -970,8 +1140,6 @@ Proof.
 Qed.
 
 (* ---- distanceXY, fixed (unit) axis ---- *)
-Lemma Reqb_false a b : a <> b -> Reqb' a b = false.
-Proof. intros H. unfold Reqb'. destruct (Req_EM_T a b); [contradiction|reflexivity]. Qed.
 
 Definition vperp (d ax : V3) : V3 := v3sub Rops d (v3scale Rops (v3dot Rops d ax) ax).
 Lemma vperp_line (d e ax : V3) t : vperp (v3add Rops d (v3scale Rops t e)) ax = v3add Rops (vperp d ax) (v3scale Rops t (vperp e ax)).
@@ -1387,6 +1555,14 @@ Proof.
   unfold v3dot, v3sub, v3add, v3scale, vdiv. cbn [nadd nsub nmul ndiv Rops]. intros HL. field. exact HL.
 Qed.
 
+Lemma zmid_plain (pbc : bool) (c1 c2 : V3) :
+  (if pbc then v3add Rops c1 (v3scale Rops (hf Rops) (v3sub Rops c2 c1)) else v3scale Rops (hf Rops) (v3add Rops c1 c2))
+  = v3scale Rops (hf Rops) (v3add Rops c1 c2).
+Proof.
+  destruct pbc; [|reflexivity]. apply v3_ext. intros j. rewrite ?vget_add, ?vget_scale, ?vget_sub, ?vget_add.
+  change (hf Rops) with (1 / 2). field.
+Qed.
+
 Lemma dir_correct_distance_z2 pbc cell (gs : list GD) : gds_wf gs 3 -> plain pbc cell ->
   v3norm2 Rops (v3sub Rops (gd_com Rops (gnth gs 2)) (gd_com Rops (gnth gs 1))) <> 0 ->
   dir_correct (k_distance_z2 Rops pbc cell) gs.
@@ -1397,12 +1573,13 @@ Proof.
   split.
   - unfold k_distance_z2. cbv zeta. cbn [snd]. apply (shape_3 (gnth gs 0) (gnth gs 1) (gnth gs 2)); [apply gds_3; exact Hwf| | |]; apply wgrad_length.
   - intros Ds _. unfold k_distance_z2. cbv zeta. cbn [fst snd]. rewrite dot_lists_3, !wgrad_dot by assumption. rewrite !pdist_plain by exact Hpl.
+    rewrite !(zmid_plain pbc).
     set (cm := gd_com Rops (gnth gs 0)) in *. set (c1 := gd_com Rops (gnth gs 1)) in *. set (c2 := gd_com Rops (gnth gs 2)) in *.
     set (Em := comdir (gnth gs 0) (nth 0 Ds [])). set (E1 := comdir (gnth gs 1) (nth 1 Ds [])). set (E2 := comdir (gnth gs 2) (nth 2 Ds [])).
     apply (is_derive_ext (fun t => v3dot Rops (vunit Rops (v3sub Rops (v3add Rops c2 (v3scale Rops t E2)) (v3add Rops c1 (v3scale Rops t E1))))
                                      (v3sub Rops (v3add Rops cm (v3scale Rops t Em))
                                             (v3scale Rops (hf Rops) (v3add Rops (v3add Rops c1 (v3scale Rops t E1)) (v3add Rops c2 (v3scale Rops t E2))))))).
-    + intros t. rewrite !(com_curve gs 3 Ds _ t Hwf) by lia. rewrite !pdist_plain by exact Hpl. reflexivity.
+    + intros t. rewrite !(com_curve gs 3 Ds _ t Hwf) by lia. rewrite !pdist_plain by exact Hpl. rewrite !(zmid_plain pbc). reflexivity.
     + evar_last.
       * apply (derive_dot (fun t => vunit Rops (v3sub Rops (v3add Rops c2 (v3scale Rops t E2)) (v3add Rops c1 (v3scale Rops t E1))))
                           (fun t => v3sub Rops (v3add Rops cm (v3scale Rops t Em))
@@ -2013,13 +2190,17 @@ Definition bias_guard (b : bias) (ws : list cvar) (x0 : list R) : Prop :=
   | BHarmonic k cs => terms_ok fst cs ws
   | BLinear k cs => terms_ok fst cs ws
   | BWalls k lk uk hl hu l => terms_ok fst l ws /\ walls_guard hl hu l x0
+  | BMeta hs => forall h, In h hs -> hill_ok ws x0 h                         (* no hill exactly at its truncation radius *)
+  | BAbmd k dec v ref => (v < length ws)%nat /\ abmd_diff Rops dec (xat Rops x0 v) ref <> 0   (* not exactly at the reference *)
   end.
 Lemma bias_guard_ok b ws x0 : bias_guard b ws x0 -> bias_force_correct b ws x0.
 Proof.
-  destruct b as [k cs|k lk uk hl hu l|k cs]; cbn [bias_guard].
+  destruct b as [k cs|k lk uk hl hu l|k cs|hs|k dec v ref]; cbn [bias_guard].
   - apply bias_force_correct_harmonic.
   - intros [H1 H2]. apply bias_force_correct_walls; assumption.
   - apply bias_force_correct_linear.
+  - apply bias_force_correct_meta.
+  - intros [H1 H2]. apply bias_force_correct_abmd; assumption.
 Qed.
 
 Lemma forces_nth (cf : config) (s : SYS) a : (a < length s)%nat ->
@@ -2096,4 +2277,14 @@ Proof.
     assert (B : min_image1 Rops 8 (1 - 0) = 1) by (rewrite min_image1_pdiff; apply (CV.C18.ValueProofs.pdiff_unique 8 (1 - 0) 1 0); lra).
     unfold cut_free1. cbn [vget v3sub nsub Rops]. rewrite A, B. repeat split; lra.
   - intros [H|H]; discriminate.
+Qed.
+
+Lemma ex_hill : hill_ok [mkCvar 1 false 0 []] [3] (2, [(0%nat, (1, 2))]) /\ abmd_diff Rops false 3 5 <> 0.
+Proof.
+  split.
+  - unfold hill_ok. cbn [snd]. split; [|split].
+    + intros a [<-|[]]. cbn [fst length]. split; [lia|]. unfold var_ok, vat. cbn. split; [lra|reflexivity].
+    + intros t [<-|[]]. cbn. lra.
+    + unfold hill_sqdev, dist2, pdiff, rvar, vat, xat. cbn. lra.
+  - unfold abmd_diff, one. cbn. lra.
 Qed.
